@@ -59,6 +59,11 @@ def dynctx(inb: bool, v: int, w: int, nested: bool) -> None:
     check('C04.update_ctx_restores', q.y == 0, dict(info, what='plain value'))
     s.v = 9
     check('C04.update_ctx_restores', q.x == 9, dict(info, what='link'))
+    # param.trigger alters no value: a dynamic value stays the generator, a link stays a link
+    q.param.trigger('n', 'x')
+    check('C04.values', q.param.get_value_generator('n') is gen, dict(info, what='trigger on a dynamic value'))
+    s.v = 11
+    check('C04.values', q.x == 11, dict(info, what='trigger on a linked parameter'))
 
 
 def _ranges(consts):
